@@ -90,7 +90,13 @@ fn build(c: &'static Coin, case: &Case) -> ChainBuilder {
             }
         }
         let prev = cb.tip_hash();
-        let b = Block::build(1, prev, *t, 0x1d00ffff, i as u32, txs);
+        // on merged-mined chains every block but the first carries an AuxPoW section whose parent header has its own time
+        let merged = case.label == "merged-mined blocks" && i > 0;
+        let version = if merged { c.auxpow_from.unwrap() + 2 } else { 1 };
+        let mut b = Block::build(version, prev, *t, 0x1d00ffff, i as u32, txs);
+        if merged {
+            b.auxpow = Some(refmodel::ser::AuxPow { parent_coinbase: coinbase(9, 9, vec![pay(9, 9)]), parent_hash: [9; 32], coinbase_branch: vec![[1; 32]; 2], coinbase_mask: 1, chain_branch: vec![], chain_mask: 0, parent_header: refmodel::ser::Header { version: 0x2000_0000, prev: [3; 32], merkle: [4; 32], time: t.wrapping_add(7200 * (i as u32 % 3)).wrapping_sub(5), bits: 6, nonce: 7 } });
+        }
         cb.blocks.push(b);
     }
     cb
@@ -153,6 +159,13 @@ pub fn run() -> Report {
     for cn in ["bitcoin"] {
         for base in [13_440_000u64, 13_439_998, 1 << 32] {
             cases.push(Case { coin: cn, base, times: vec![1000, 2000, 2500], mix: 1, cb_delta: 5000, types_world: false, label: "reward shift >= 64" });
+        }
+    }
+    for cn in ["namecoin", "dogecoin"] {
+        for times in [vec![1000u32, 1600, 2200, 2800, 3400], vec![5000, 4000, 4000, 9000]] {
+            for mix in [1u8, 4] {
+                cases.push(Case { coin: cn, base: 0, times: times.clone(), mix, cb_delta: 0, types_world: false, label: "merged-mined blocks" });
+            }
         }
     }
     rep.rule = "chains of 1..4 blocks x ALL timestamp sequences over {1, 1000, 4e9} (non-monotonic, equal, gaps summing beyond 2^32) x 7 transaction mixes (null outpoints in non-coinbase transactions, coinbase only, +1 tx, value tie, stripped-size tie, segwit tx biggest on disk only, a tx with wide CompactSize forms) on bitcoin (all) and litecoin; coinbase first-output value {reward-1, reward, reward+1, reward+5000, 0, alternating reward+5000 / reward-1000} x start heights around the halvings (sparse indexes); one world per coin with every script class; every figure of the parsed report compared with an exact integer / rational recomputation; non-trivial = distinct case with >= 2 blocks".into();
